@@ -1099,6 +1099,11 @@ pub struct TypedCase {
     pub asynchronous: bool,
     pub metrics: bool,
     pub ops: Vec<TOp>,
+    /// key type: 0 = u64 under the default key builder (then `vt` picks the value type); 1.. = an
+    /// integer key type under TransparentKeyBuilder resp. String under the default one, the five
+    /// key slots mapped to boundary values of the type (values are u64 then)
+    #[serde(default)]
+    pub kt: u8,
 }
 
 pub fn typed_strategy() -> BoxedStrategy<TypedCase> {
@@ -1109,8 +1114,20 @@ pub fn typed_strategy() -> BoxedStrategy<TypedCase> {
         2 => (0u8..5).prop_map(|k| TOp::Get { k }),
         2 => (0u8..5).prop_map(|k| TOp::GetTtl { k }),
     ];
-    (0u8..6, proptest::bool::weighted(0.3), any::<bool>(), proptest::collection::vec(op, 2..14))
-        .prop_map(|(vt, asynchronous, metrics, ops)| TypedCase { vt, asynchronous, metrics, ops })
+    (0u8..6, proptest::bool::weighted(0.3), any::<bool>(), proptest::collection::vec(op, 2..14), prop_oneof![3 => Just(0u8), 2 => 1u8..=KEY_TYPES])
+        .prop_map(|(vt, asynchronous, metrics, ops, kt)| TypedCase { vt, asynchronous, metrics, ops, kt })
+        .boxed()
+}
+
+pub const KEY_TYPES: u8 = 12;
+
+/// the same histories, always on one of the non-default key types
+pub fn keyed_strategy() -> BoxedStrategy<TypedCase> {
+    (typed_strategy(), 1u8..=KEY_TYPES)
+        .prop_map(|(mut c, kt)| {
+            c.kt = kt;
+            c
+        })
         .boxed()
 }
 
@@ -1122,11 +1139,20 @@ fn typed_rt() -> &'static tokio::runtime::Runtime {
 /// one quiescent history (wait() after every write) against an exact map; `mk` makes the value for
 /// a serial number, `eq` compares two values (always true for the unit type)
 fn typed_history<V: Send + Sync + Clone + 'static>(c: &TypedCase, mk: fn(u32) -> V, eq: fn(&V, &V) -> bool, only: &[&str]) -> Result<CompFeats, String> {
+    keyed_history::<u64, stretto::DefaultKeyBuilder<u64>, V>(c, Default::default(), |k| k as u64, mk, eq, only)
+}
+
+fn keyed_history<K, KH, V>(c: &TypedCase, kh: KH, kmap: fn(u8) -> K, mk: fn(u32) -> V, eq: fn(&V, &V) -> bool, only: &[&str]) -> Result<CompFeats, String>
+where
+    K: std::hash::Hash + Eq + Send + Sync + 'static + std::fmt::Debug,
+    KH: stretto::KeyBuilder<Key = K> + Send + Sync + 'static,
+    V: Send + Sync + Clone + 'static,
+{
     use std::collections::HashMap;
     let mut feats = CompFeats { nontrivial: false, classes: vec![] };
     let fail = |pred: &str, msg: String| -> Result<(), String> {
         if only.contains(&pred) {
-            Err(format!("[{}] value type #{} ({} bytes){}: {}", pred, c.vt, std::mem::size_of::<V>(), if c.asynchronous { ", async" } else { "" }, msg))
+            Err(format!("[{}] key type {} ({:?}), value type #{} ({} bytes){}: {}", pred, std::any::type_name::<K>(), (0u8..5).map(kmap).collect::<Vec<K>>(), c.vt, std::mem::size_of::<V>(), if c.asynchronous { ", async" } else { "" }, msg))
         } else {
             Ok(())
         }
@@ -1141,7 +1167,7 @@ fn typed_history<V: Send + Sync + Clone + 'static>(c: &TypedCase, mk: fn(u32) ->
                 match op {
                     TOp::Insert { k, cost, ttl_s } => {
                         serial += 1;
-                        let r = if *ttl_s == 0 { $aw!(cache.try_insert(*k as u64, mk(serial), *cost as i64)) } else { $aw!(cache.try_insert_with_ttl(*k as u64, mk(serial), *cost as i64, Duration::from_secs(*ttl_s as u64))) };
+                        let r = if *ttl_s == 0 { $aw!(cache.try_insert(kmap(*k), mk(serial), *cost as i64)) } else { $aw!(cache.try_insert_with_ttl(kmap(*k), mk(serial), *cost as i64, Duration::from_secs(*ttl_s as u64))) };
                         let r = r.map_err(|e| e.to_string());
                         if r != Ok(true) {
                             fail("typed_map", format!("step {}: insert of key {} into a nearly empty cache returned {:?}", step, k, r))?;
@@ -1150,7 +1176,7 @@ fn typed_history<V: Send + Sync + Clone + 'static>(c: &TypedCase, mk: fn(u32) ->
                     }
                     TOp::Iip { k, cost } => {
                         serial += 1;
-                        let r = $aw!(cache.try_insert_if_present(*k as u64, mk(serial), *cost as i64)).map_err(|e| e.to_string());
+                        let r = $aw!(cache.try_insert_if_present(kmap(*k), mk(serial), *cost as i64)).map_err(|e| e.to_string());
                         let want = model.contains_key(k);
                         if r != Ok(want) {
                             fail("typed_iip", format!("step {}: insert_if_present on a {} key returned {:?}", step, if want { "resident" } else { "absent" }, r))?;
@@ -1161,7 +1187,7 @@ fn typed_history<V: Send + Sync + Clone + 'static>(c: &TypedCase, mk: fn(u32) ->
                         }
                     }
                     TOp::Remove { k } => {
-                        let _ = $aw!(cache.try_remove(&(*k as u64)));
+                        let _ = $aw!(cache.try_remove(&kmap(*k)));
                         model.remove(k);
                     }
                     TOp::Get { .. } | TOp::GetTtl { .. } => {}
@@ -1172,7 +1198,7 @@ fn typed_history<V: Send + Sync + Clone + 'static>(c: &TypedCase, mk: fn(u32) ->
                 }
                 // every key of the domain
                 for k in 0u8..5 {
-                    let got = $aw!(cache.get(&(k as u64))).map(|r| r.value().clone());
+                    let got = $aw!(cache.get(&kmap(k))).map(|r| r.value().clone());
                     match (got, model.get(&k)) {
                         (None, None) => {}
                         (Some(v), Some((s, _))) => {
@@ -1183,7 +1209,7 @@ fn typed_history<V: Send + Sync + Clone + 'static>(c: &TypedCase, mk: fn(u32) ->
                         (None, Some((s, _))) => fail("typed_map", format!("step {}: key {} (value #{}) is gone although the cache is far below capacity", step, k, s))?,
                         (Some(_), None) => fail("typed_map", format!("step {}: key {} is retrievable although it was removed / never inserted", step, k))?,
                     }
-                    let t = cache.get_ttl(&(k as u64));
+                    let t = cache.get_ttl(&kmap(k));
                     match (t, model.get(&k)) {
                         (None, None) => {}
                         (Some(d), Some((_, 0))) => {
@@ -1214,7 +1240,7 @@ fn typed_history<V: Send + Sync + Clone + 'static>(c: &TypedCase, mk: fn(u32) ->
     }
     if c.asynchronous {
         let rt = typed_rt();
-        let cache = stretto::AsyncCache::<u64, V>::builder(1000, 1 << 40).set_metrics(c.metrics).finalize(|f| {
+        let cache = stretto::AsyncCacheBuilder::<K, V, KH>::new_with_key_builder(1000, 1 << 40, kh).set_metrics(c.metrics).finalize(|f| {
             typed_rt().spawn(f);
         });
         let cache = cache.map_err(|e| format!("HARNESS typed cache could not be built: {}", e))?;
@@ -1229,8 +1255,11 @@ fn typed_history<V: Send + Sync + Clone + 'static>(c: &TypedCase, mk: fn(u32) ->
         });
         r?;
     } else {
-        let cache = stretto::Cache::<u64, V>::builder(1000, 1 << 40).set_metrics(c.metrics).finalize().map_err(|e| format!("HARNESS typed cache could not be built: {}", e))?;
+        let cache = stretto::CacheBuilder::<K, V, KH>::new_with_key_builder(1000, 1 << 40, kh).set_metrics(c.metrics).finalize().map_err(|e| format!("HARNESS typed cache could not be built: {}", e))?;
         history!(&cache, now);
+    }
+    if c.kt != 0 {
+        feats.classes.push("non_default_key_type");
     }
     feats.classes.push(match c.vt {
         0 => "unit",
@@ -1244,12 +1273,29 @@ fn typed_history<V: Send + Sync + Clone + 'static>(c: &TypedCase, mk: fn(u32) ->
 }
 
 fn run_typed_only(c: &TypedCase, only: &[&str]) -> Result<CompFeats, String> {
-    let r = caught(|| match c.vt {
-        0 => typed_history::<()>(c, |_| (), |_, _| true, only),
-        1 => typed_history::<u8>(c, |s| s as u8, |a, b| a == b, only),
-        2 => typed_history::<u64>(c, |s| s as u64 * 0x1_0000_0001, |a, b| a == b, only),
-        3 => typed_history::<[u8; 64]>(c, |s| [s as u8; 64], |a, b| a == b, only),
-        4 => typed_history::<String>(c, |s| format!("value-{}", s), |a, b| a == b, only),
+    use stretto::TransparentKeyBuilder as T;
+    let v = |s: u32| s as u64 * 0x1_0000_0001;
+    let e = |a: &u64, b: &u64| a == b;
+    // slot 0 and slot 1 differ only above the low half of the type's width, slot 2 is -1 / MAX,
+    // slot 3 the low half all ones, slot 4 the sign bit / top bit plus slot 0's low bits
+    let r = caught(|| match (c.kt, c.vt) {
+        (1, _) => keyed_history::<i64, T<i64>, u64>(c, T::default(), |k| [7, (1 << 32) + 7, -1, 0xFFFF_FFFF, i64::MIN + 7][k as usize], v, e, only),
+        (2, _) => keyed_history::<u64, T<u64>, u64>(c, T::default(), |k| [7, (1 << 32) + 7, u64::MAX, 0xFFFF_FFFF, (1 << 63) + 7][k as usize], v, e, only),
+        (3, _) => keyed_history::<i32, T<i32>, u64>(c, T::default(), |k| [7, 65543, -1, 65535, i32::MIN + 7][k as usize], v, e, only),
+        (4, _) => keyed_history::<u32, T<u32>, u64>(c, T::default(), |k| [7, 65543, u32::MAX, 65535, (1 << 31) + 7][k as usize], v, e, only),
+        (5, _) => keyed_history::<i16, T<i16>, u64>(c, T::default(), |k| [7, 263, -1, 255, i16::MIN + 7][k as usize], v, e, only),
+        (6, _) => keyed_history::<u16, T<u16>, u64>(c, T::default(), |k| [7, 263, u16::MAX, 255, (1 << 15) + 7][k as usize], v, e, only),
+        (7, _) => keyed_history::<i8, T<i8>, u64>(c, T::default(), |k| [7, 23, -1, 15, i8::MIN + 7][k as usize], v, e, only),
+        (8, _) => keyed_history::<u8, T<u8>, u64>(c, T::default(), |k| [7, 23, u8::MAX, 15, 128 + 7][k as usize], v, e, only),
+        (9, _) => keyed_history::<isize, T<isize>, u64>(c, T::default(), |k| [7, (1 << 32) + 7, -1, 0xFFFF_FFFF, isize::MIN + 7][k as usize], v, e, only),
+        (10, _) => keyed_history::<usize, T<usize>, u64>(c, T::default(), |k| [7, (1 << 32) + 7, usize::MAX, 0xFFFF_FFFF, (1 << 63) + 7][k as usize], v, e, only),
+        (11, _) => keyed_history::<String, stretto::DefaultKeyBuilder<String>, u64>(c, Default::default(), |k| ["", "a", "b", "ab", "ba"][k as usize].to_string(), v, e, only),
+        (12, _) => keyed_history::<i64, stretto::DefaultKeyBuilder<i64>, u64>(c, Default::default(), |k| [7, (1 << 32) + 7, -1, 0xFFFF_FFFF, i64::MIN + 7][k as usize], v, e, only),
+        (_, 0) => typed_history::<()>(c, |_| (), |_, _| true, only),
+        (_, 1) => typed_history::<u8>(c, |s| s as u8, |a, b| a == b, only),
+        (_, 2) => typed_history::<u64>(c, |s| s as u64 * 0x1_0000_0001, |a, b| a == b, only),
+        (_, 3) => typed_history::<[u8; 64]>(c, |s| [s as u8; 64], |a, b| a == b, only),
+        (_, 4) => typed_history::<String>(c, |s| format!("value-{}", s), |a, b| a == b, only),
         _ => typed_history::<Vec<u32>>(c, |s| vec![s; (s % 7) as usize], |a, b| a == b, only),
     });
     match r {
